@@ -7,21 +7,22 @@ def _is_subseq(small, big):
     return all(any(x == y for y in it) for x in small)
 
 
-@sig("c19_spurious_short_frame_from_noise")
+@sig("c19_false_preamble_in_strong_noise")
 def c19_spurious(case, clause):
     """_process_buffer returns every modulated frame, in order, plus extra SHORT frames of a format without checksum
     (DF4/5/11) sliced out of noise, in a buffer whose noise peaks reach 0.2 absolute (the preamble template's tolerance)."""
-    if clause != "demod_wrong_or_extra_frames" or case.get("fn") != "demod" or case.get("cls") != "ten_db":
+    if clause not in ("demod_wrong_or_extra_frames", "demod_frames_lost") or case.get("fn") != "demod":
+        return False
+    if case.get("cls") != "ten_db_abs":
         return False
     res = case.get("res", {})
     if res.get("t") != "frames":
         return False
+    noise_peak = case["case"][3] if len(case.get("case", [])) > 3 else 0
+    if noise_peak < 200:
+        return False
     got = ["".join(chr(c) for c in t) for t in res["v"]]
     sent = [bytes(f).hex().upper() for f in case.get("sent", [])]
-    if not _is_subseq(sent, got) or len(got) <= len(sent):
-        return False
-    extra = list(got)
-    for s in sent:
-        extra.remove(s)
-    noise_peak = case["case"][3] if len(case.get("case", [])) > 3 else 0
-    return noise_peak >= 200 and all(len(x) == 14 and (int(x[:2], 16) >> 3) in (4, 5, 11) for x in extra)
+    # what was returned beyond the modulated frames may only be of a format that carries no checksum (DF4/5/11/20/21)
+    extra = [g for g in got if g not in sent]
+    return all((int(x[:2], 16) >> 3) in (4, 5, 11, 20, 21) for x in extra)
